@@ -7,6 +7,7 @@ pub mod c07;
 pub mod c08;
 pub mod c09;
 pub mod c10;
+pub mod c11;
 pub mod c12;
 pub mod c13;
 pub mod crash;
@@ -34,6 +35,7 @@ pub fn registry(id: &str) -> Option<(RunFn, ReplayFn)> {
         "C08" => Some((c08::run, c08::replay)),
         "C09" => Some((c09::run, c09::replay)),
         "C10" => Some((c10::run, c10::replay)),
+        "C11" => Some((c11::run, c11::replay)),
         "C12" => Some((c12::run, c12::replay)),
         "C13" => Some((c13::run, c13::replay)),
         "C14" => Some((c14::run, c14::replay)),
